@@ -267,11 +267,10 @@ class Solver:
                     self.stats['solver_s'] += 0  # accounted in lia.stats
                     self.stats.setdefault('lia_' + r, 0)
                     self.stats['lia_' + r] += 1
-                    if r != 'unknown':
-                        self.last = 'lia'
-                        self.last_model = self.lia.last_model
-                        self.cache[key] = r
-                        return r
+                    self.last = 'lia'
+                    self.last_model = self.lia.last_model
+                    self.cache[key] = r
+                    return r   # bit-blasting a query with wide multiplications is hopeless: no BV retry
                 except LiaUnsupported as ex:
                     self.stats.setdefault('lia_unsupported', 0)
                     self.stats['lia_unsupported'] += 1
